@@ -521,6 +521,12 @@ REDPATS = ["^$", "^r/(.*)$", "^old/(.*)/(.*)$", "^(\\d+)$", "^go$", "^r/", "(b)(
 TEMPLATES = ["/new/%1", "/n/%1/%2", "/%2/%1", "/fixed", "/%1%1", "/p%", "http://h/%1", "/%L1", "/%1/%3", "/a b", "/%%1"]
 RSEGS = ["api", "a", "r", "old", "123", "abc", "x", "v2", "static", "go", "%0d%0aInjected:%20x", "%25", "%252", "%2f", "a%20b", "%C3%A9", "", "b", "bc",
          "i.php", "ab", "%251"]
+# captures against place markers (finding D12, repaired): templates with two markers / glued markers and
+# request segments whose decoded text contains, starts or completes a marker; a capture must be inserted
+# verbatim and never scanned again.  \u0661 (ARABIC-INDIC DIGIT ONE) and \u00b2 are digits for QChar::digitValue().
+MTEMPLATES = ["/n/%1/%2", "/%2/%1", "/%1/%3", "/%%1", "/%2%1", "/%105", "/%1%2", "/%%155", "/%L1/%2", "/%1/%2/%1", "/%2/%L1%",
+              "/%0/%1", "/%\u0661/%2", "/%1\u00b2/%1"]
+MSEGS = ["%252", "%251", "%25", "%2525", "123", "3", "1", "", "%25L1", "%25L", "x", "a%252", "%2512", "0", "%253", "%25%D9%A1", "%25%C2%B2"]
 
 
 def gen_tree(rng, accept_p):
@@ -565,6 +571,12 @@ def gen_route(rng, count, accept_p):
             t += "?q=1"
         if rng.random() < 0.05:
             t = pick(rng, ["/", "", "*", "//", "/a//b"])
+        if rng.random() < 0.08:
+            # a two-capture redirect, first in the root's list, answered with marker-like captures
+            k = sum(1 for x in toks if x.startswith("pat:"))
+            at = min(j for j, x in enumerate(toks) if x.startswith("node:")) + 1
+            toks[at:at] = ["pat:%d:%s" % (k, hx16("^old/(.*)/(.*)$")), "redir:0:%d:%s" % (k, hx16(pick(rng, MTEMPLATES)))]
+            t = "/old/" + pick(rng, MSEGS) + "/" + pick(rng, MSEGS)
         r = rng.random()
         if r >= 0.16 and rng.random() < 0.25:
             # earlier requests (for the same path, mostly) on other connections while the tree is still being
